@@ -7,6 +7,8 @@ func GenScenario(prop string, verifSeed uint64, run int) *Scenario {
 		return GenC06(verifSeed, run)
 	case "C11":
 		return GenC11(verifSeed, run)
+	case "C12":
+		return GenC12(verifSeed, run)
 	}
 	return nil
 }
@@ -18,6 +20,8 @@ func RunScenario(rt *Runtime, sc *Scenario) RunResult {
 		return RunC06(rt, sc)
 	case "C11":
 		return RunC11(rt, sc)
+	case "C12":
+		return RunC12(rt, sc)
 	}
 	return RunResult{Run: sc.Run, Trouble: "unknown property " + sc.Property}
 }
